@@ -17,7 +17,7 @@ M = [
  ('C03a', 'C05', 'src/reader.c', "        GOE(jls_bk_truncate(jls_raw_backend(core->raw)));", "        /* truncate skipped */", 'repair does not truncate the torn tail (the reopened prefix is still right, so C03 holds; the repaired file is malformed: C05/C19)'),
  ('C03b', 'C03', 'src/reader.c', "                    jls_track_repair_pointers(&signal_info->tracks[track_idx]);", "                    (void) track_idx;", 'dangling links are not cut on repair'),
  ('C04a', 'C04', 'src/raw.c', "    if (crc32_calc != crc32_file) {\n        JLS_LOGE(\"crc32 mismatch: 0x%08x != 0x%08x\", crc32_file, crc32_calc);\n        return JLS_ERROR_MESSAGE_INTEGRITY;\n    }", "    if ((crc32_calc != crc32_file) && (hdr->payload_length < 64)) {\n        JLS_LOGE(\"crc32 mismatch: 0x%08x != 0x%08x\", crc32_file, crc32_calc);\n        return JLS_ERROR_MESSAGE_INTEGRITY;\n    }", 'payload CRC only enforced for small payloads'),
- ('C04b', 'C04', 'src/raw.c', "        uint32_t crc32 = jls_crc32c_hdr(h);\n        if (crc32 != h->crc32) {\n            JLS_LOGW(\"chunk header fpos", "        uint32_t crc32 = jls_crc32c_hdr(h);\n        if ((crc32 != h->crc32) && ((crc32 ^ h->crc32) & 0xffff0000U)) {\n            JLS_LOGW(\"chunk header fpos", 'header CRC compared on the upper 16 bits only'),
+ ('C04b', 'C04', 'src/raw.c', "        uint32_t crc32 = jls_crc32c_hdr(h);\n        if ((crc32 != h->crc32) && !hdr_is_torn_link(h)) {\n            JLS_LOGW(\"chunk header fpos", "        uint32_t crc32 = jls_crc32c_hdr(h);\n        if ((crc32 != h->crc32) && ((crc32 ^ h->crc32) & 0xffff0000U) && !hdr_is_torn_link(h)) {\n            JLS_LOGW(\"chunk header fpos", 'header CRC compared on the upper 16 bits only'),
  ('C05a', 'C05', 'src/raw.c', "    if (self->backend.fpos >= self->backend.fend) {\n        self->last_payload_length = payload_length;\n    }", "    if (self->backend.fpos > self->backend.fend) {\n        self->last_payload_length = payload_length;\n    }", 'payload_prev_length never updated on append'),
  ('C05b', 'C05', 'src/wr_fsr.c', "        dst->index->header.timestamp = src->index->header.timestamp;\n        dst->summary->header.timestamp = src->summary->header.timestamp;", "        dst->index->header.timestamp = src->index->header.timestamp;\n        dst->summary->header.timestamp = src->summary->header.timestamp + 1;", 'upper-level SUMMARY timestamp differs from its INDEX'),
  ('C06a', 'C06', 'src/threaded_writer.c', "    uint32_t sz = sizeof(*hdr) + payload_size;\n    jls_bkt_msg_lock(self->bk);\n    uint8_t *msg = jls_mrb_alloc(&self->mrb, sz);", "    uint32_t sz = sizeof(*hdr) + payload_size;\n    uint8_t *msg = jls_mrb_alloc(&self->mrb, sz);\n    jls_bkt_msg_lock(self->bk);", 'queue allocation moved out of the message lock'),
